@@ -20,8 +20,10 @@ type c05ReadCase struct {
 }
 
 type c05WriteCase struct {
-	Doc  stlDoc `json:"doc"`
-	Meta string `json:"meta"` // stl | nil | inherited
+	// Foreign: the list carries metadata of other formats; the file-level helper is exercised as well
+	Foreign bool   `json:"foreign,omitempty"`
+	Doc     stlDoc `json:"doc"`
+	Meta    string `json:"meta"` // stl | nil | inherited
 }
 
 type c05CycleCase struct {
@@ -99,7 +101,7 @@ func checkC05Read(c c05ReadCase) string {
 			return fmt.Sprintf("cue %d: position reports %d rows, the text field holds %d (line-break codes + 1, empty rows included)", i, gc.NRows, wantRows)
 		}
 	}
-	return ""
+	return rereadStable("stl", b, readOpts{IgnoreTCP: c.IgnoreTCP}, s)
 }
 
 func floorFrameTC(ns int64, rate int) stlTC {
@@ -111,6 +113,10 @@ func floorFrameTC(ns int64, rate int) stlTC {
 
 func checkC05Write(c c05WriteCase) string {
 	s := toSubtitlesSTL(c.Doc, c.Meta)
+	if c.Foreign && c.Meta == "stl" {
+		// (lists without metadata, or with inherited metadata, stay as they are: they are cases of their own)
+		addForeignMetadata("stl", s)
+	}
 	restore := astisub.Now
 	astisub.Now = func() time.Time { return time.Date(2021, 3, 4, 0, 0, 0, 0, time.UTC) }
 	defer func() { astisub.Now = restore }()
@@ -221,6 +227,11 @@ func checkC05Write(c c05WriteCase) string {
 		}
 		if m := diffSTLRows(wc.Rows, o.Cues[i].Rows, false); m != "" {
 			return fmt.Sprintf("re-read by the library: cue %d (DSC %q): %s", i, want.DSC, m)
+		}
+	}
+	if c.Foreign {
+		if m := fileWriteAgrees("stl", s); m != "" {
+			return m
 		}
 	}
 	return ""
@@ -397,7 +408,7 @@ func TestC05(t *testing.T) {
 	})
 	rapidCheck(t, "C05/write", tier(2000, 100000), func(rt *rapid.T) {
 		avoid := knownActive(kfSTLDollar)
-		c := c05WriteCase{Doc: genSTLDoc(rt, avoid), Meta: rapid.SampledFrom([]string{"stl", "stl", "nil", "inherited"}).Draw(rt, "meta")}
+		c := c05WriteCase{Doc: genSTLDoc(rt, avoid), Meta: rapid.SampledFrom([]string{"stl", "stl", "nil", "inherited"}).Draw(rt, "meta"), Foreign: rapid.IntRange(0, 2).Draw(rt, "foreign") == 0}
 		nt, ls := c05Labels(c.Doc)
 		ev.Case(nt, fmt.Sprintf("w%v", c), append(ls, "write", "meta-"+c.Meta)...)
 		if nt && len(c.Doc.Cues) <= 2 {
